@@ -33,6 +33,9 @@ enum Atom {
     /// after the pass an alias of v is made and re-flagged (`v.clone().untracked()`, optionally
     /// followed by `.tracked()`): flag transitions on a clone must not touch the shared gradient
     PostPassAlias(usize, bool),
+    /// v is paused (`stop_tracking`), cloned, and both handles are resumed; the clone then stands
+    /// in for v in every later use (and as the root of the pass when v is the root)
+    PausedClone(usize),
 }
 
 fn fmt_atom(a: &Atom) -> String {
@@ -46,6 +49,7 @@ fn fmt_atom(a: &Atom) -> String {
         Atom::ReadAfter(v) => format!("read-via-clone-made-after-pass(v{})", v),
         Atom::Reflag(v, k) => format!("flag-round-trip(v{},after-node{})", v, k),
         Atom::FlagAlias(v) => format!("held-alias-with-flipped-flags(v{})", v),
+        Atom::PausedClone(v) => format!("cloned-while-paused(v{})", v),
         Atom::PostPassAlias(v, again) => format!("alias-reflagged-after-pass(v{},{})", v, if *again { "untracked-then-tracked" } else { "untracked" }),
     }
 }
@@ -109,6 +113,11 @@ fn script(p: &Program, ops: &[OpK], root: usize, atoms: &[Atom], tracked: &[bool
                     return None;
                 }
             }
+            Atom::PausedClone(v) => {
+                if !tracked[*v] || atoms.iter().any(|b| matches!(b, Atom::PClone(x, _) if x == v)) {
+                    return None;
+                }
+            }
             Atom::ReadBefore(v) | Atom::ReadAfter(v) | Atom::PostPassAlias(v, _) => {
                 if atoms.contains(&Atom::DropAfterLastUse(*v)) {
                     return None;
@@ -125,7 +134,19 @@ fn script(p: &Program, ops: &[OpK], root: usize, atoms: &[Atom], tracked: &[bool
         }
     };
     let mut alias: Vec<Option<usize>> = vec![None; nv];
+    let paused_clone = |v: usize, acts: &mut Vec<Act>, cslot: &mut Vec<Option<usize>>, fresh: &mut dyn FnMut() -> usize, slot_of: &Vec<Option<usize>>| {
+        if atoms.contains(&Atom::PausedClone(v)) && cslot[v].is_none() {
+            let s = slot_of[v].unwrap() as u8;
+            let c = fresh();
+            acts.push(Act::Flag { slot: s, kind: 3 });
+            acts.push(Act::Clone { src: s, dst: c as u8 });
+            acts.push(Act::Flag { slot: s, kind: 2 });
+            acts.push(Act::Flag { slot: c as u8, kind: 2 });
+            cslot[v] = Some(c);
+        }
+    };
     for v in 0..nl {
+        paused_clone(v, &mut acts, &mut cslot, &mut fresh, &slot_of);
         make_pclone(v, &mut acts, &mut cslot, &mut fresh, &slot_of);
         if atoms.contains(&Atom::FlagAlias(v)) {
             let c = fresh();
@@ -146,7 +167,7 @@ fn script(p: &Program, ops: &[OpK], root: usize, atoms: &[Atom], tracked: &[bool
         let mut args: Vec<u8> = Vec::new();
         let mut temps: Vec<usize> = Vec::new();
         for (pos, a) in n.args.iter().enumerate() {
-            let via_pclone = atoms.iter().any(|x| matches!(x, Atom::PClone(v, us) if *v == *a && us.contains(&(k, pos))));
+            let via_pclone = atoms.iter().any(|x| matches!(x, Atom::PClone(v, us) if *v == *a && us.contains(&(k, pos)))) || atoms.contains(&Atom::PausedClone(*a));
             let mut src = if via_pclone { cslot[*a]? } else { slot_of[*a]? };
             if atoms.contains(&Atom::TempClone(k, pos)) {
                 let t = fresh();
@@ -169,6 +190,7 @@ fn script(p: &Program, ops: &[OpK], root: usize, atoms: &[Atom], tracked: &[bool
         for t in temps {
             acts.push(Act::Drop { slot: t as u8 });
         }
+        paused_clone(vi, &mut acts, &mut cslot, &mut fresh, &slot_of);
         make_pclone(vi, &mut acts, &mut cslot, &mut fresh, &slot_of);
         if atoms.contains(&Atom::FlagAlias(vi)) {
             let c = fresh();
@@ -209,7 +231,7 @@ fn script(p: &Program, ops: &[OpK], root: usize, atoms: &[Atom], tracked: &[bool
             views[v].push(c);
         }
     }
-    let rs = slot_of[root]?;
+    let rs = if atoms.contains(&Atom::PausedClone(root)) { cslot[root]? } else { slot_of[root]? };
     if atoms.contains(&Atom::RootClone) {
         let c = fresh();
         acts.push(Act::Clone { src: rs as u8, dst: c as u8 });
@@ -308,6 +330,7 @@ fn atoms_for(p: &Program, root: usize) -> Vec<Atom> {
         out.push(Atom::ReadBefore(v));
         out.push(Atom::ReadAfter(v));
         out.push(Atom::FlagAlias(v));
+        out.push(Atom::PausedClone(v));
         out.push(Atom::PostPassAlias(v, false));
         out.push(Atom::PostPassAlias(v, true));
         let first = if v < p.nl() { 0 } else { v - p.nl() };
@@ -412,6 +435,19 @@ pub fn explore(opts: &Opts) -> Explored {
                                         acts.push(Act::Backward { slot: rs, seed: 0 });
                                         seeds.push(None);
                                     }
+                                    // a pass, then an optimizer update of the tracked leaves
+                                    4 | 5 => {
+                                        acts.push(Act::Backward { slot: rs, seed: 0 });
+                                        seeds.push(None);
+                                        let tl: Vec<u8> = (0..nl).filter(|i| tracked[*i]).map(|i| i as u8).collect();
+                                        if kind == 5 {
+                                            // the caller holds on to a fetched gradient while the optimizer runs
+                                            acts.push(Act::Fetch { slot: tl[0], dst: g_slot as u8 });
+                                            seeds.push(None);
+                                        }
+                                        acts.push(Act::Update { slots: tl.into(), lr: 0 });
+                                        seeds.push(None);
+                                    }
                                     // a pass without a seed, then its gradient (all ones) fetched and fed back as the seed
                                     _ => {
                                         acts.push(Act::Backward { slot: rs, seed: 0 });
@@ -436,7 +472,12 @@ pub fn explore(opts: &Opts) -> Explored {
                                     iw.observe()
                                 })
                             };
-                            for (ka, kb, what) in [(0u8, 1u8, "fresh seed vs clone of a kept handle"), (2, 3, "no seed twice vs fetched gradient fed back as the seed")] {
+                            let reached_leaf = (0..nl).any(|i| tracked[i] && p.reached(&mask, root)[i]);
+                            let mut pairs: Vec<(u8, u8, &str)> = vec![(0u8, 1u8, "fresh seed vs clone of a kept handle"), (2, 3, "no seed twice vs fetched gradient fed back as the seed")];
+                            if reached_leaf && (0..nl).filter(|i| tracked[*i]).next().map(|i| p.reached(&mask, root)[i]).unwrap_or(false) {
+                                pairs.push((4, 5, "optimizer update with vs without a fetched gradient kept by the caller"));
+                            }
+                            for (ka, kb, what) in pairs {
                                 let (sa, za) = mk(ka);
                                 let (sb, zb) = mk(kb);
                                 l.transitions += 2;
@@ -591,7 +632,7 @@ pub fn explore(opts: &Opts) -> Explored {
     Explored {
         local: total,
         bounds: json!({"base_programs": base_programs, "max_nodes": 3, "ops": ["add", "mul", "neg", "umul", "and a second alphabet: axpy(0.1), mul, div (n <= 2)"], "masks": masks,
-                       "perturbation_atoms": ["temporary clone of one operand", "variable cloned after creation, clone used for all / each single later use", "handle dropped right after its last use", "result re-bound over its first operand", "pass started from a clone of the root", "gradient read through a clone made before the pass", "gradient read through a clone made after the pass", "flag round trip that restores the handle's flags at any later point", "held alias with flipped flags", "alias re-flagged after the pass", "operand through an untracked clone vs an independent untracked copy, two passes", "seed given as a clone of a kept handle / as a fetched gradient vs a fresh seed"],
+                       "perturbation_atoms": ["temporary clone of one operand", "variable cloned after creation, clone used for all / each single later use", "handle dropped right after its last use", "result re-bound over its first operand", "pass started from a clone of the root", "gradient read through a clone made before the pass", "gradient read through a clone made after the pass", "flag round trip that restores the handle's flags at any later point", "held alias with flipped flags", "alias re-flagged after the pass", "clone taken while the handle is paused, both resumed, clone used instead", "operand through an untracked clone vs an independent untracked copy, two passes", "seed given as a clone of a kept handle / as a fetched gradient vs a fresh seed", "optimizer update with vs without a fetched gradient kept alive"],
                        "deviation_bound": format!("every single atom for programs of <= {} nodes, every pair of atoms for programs of <= {} nodes", singles_upto, pairs_upto)}),
         rule: "every base program x masks x roots x every single (and pair of) handle perturbation(s): values and gradients of every handle surviving in the perturbed run, seen through every alias (main handle, persistent clone, clones made before/after the pass), must be bit-identical to the base run (implementation against implementation, no reference)".into(),
         exhaustive: true,
